@@ -117,6 +117,27 @@ pub fn visit_all(v: &mut [Tok]) -> bool {
 pub fn pure_any(v: &[Tok]) -> bool {
     v.iter().any(|t| t.0.is_empty())
 }
+/// The operator form of the same slip (`flag = flag || step(x)`), its clean twin (`|=`), and a fixpoint loop that is not meant.
+pub fn visit_or_flag(v: &mut [Tok]) -> bool {
+    let mut changed = false;
+    for t in v.iter_mut() {
+        changed = changed || rewrite(t);
+    }
+    changed
+}
+pub fn visit_bitor_flag(v: &mut [Tok]) -> bool {
+    let mut changed = false;
+    for t in v.iter_mut() {
+        changed |= rewrite(t);
+    }
+    changed
+}
+pub fn rewrite_until_stable(t: &mut Tok) {
+    let mut again = true;
+    while again {
+        again = rewrite(t);
+    }
+}
 
 /// Counters that are saturated at their maximum when they are filled in, combined with a plain `+` (overflows when both are at the
 /// maximum) and, as the clean twin, with `max` / `saturating_add`.
